@@ -763,8 +763,6 @@ def docs_worker(idx, seed_, n, mods_json, k_mut, nonmin):
         nodes = parse_all(x)      # a generator/reference disagreement is an error of the harness, not a verdict
         nt, depth, classes = features(x, nodes)
         classes += [k for k in info if not k.startswith("excl:")]
-        if nonmin and not info.get("nonminimal-length") and not any(k in info for k in ("var.longlen", "var.lenpad")):
-            classes.append("probe-run.minimal-anyway")
         key = h(x)
         acc.case(key if nt else None, classes)
         if nt:
@@ -1118,7 +1116,11 @@ def fuzz_finish(chk, fz):
             data = f.read()
         kind = name.split("-")[0]
         if kind in ("crash", "leak"):
-            fails, text = 1, "libFuzzer %s artefact; log tail: %s" % (kind, tail(log, 1500))
+            m = SAN_RE.search(log)
+            at = max(0, m.start() - 200) if m else max(0, len(log) - 1500)
+            sm = re.search(rb"SUMMARY: [^\n]*", log)
+            fails, text = 1, "libFuzzer %s artefact; report: %s\n%s" % (
+                kind, log[at:at + 1500].decode("latin-1"), sm.group(0).decode("latin-1") if sm else "")
         elif kind == "timeout":
             fails, text = run_fuzz_binary(data, 3)
             if fails < 3:
@@ -1221,13 +1223,12 @@ def main(argv):
     k_mut = chk.pick(3, 2)
     nonmin_known = KNOWN.is_known(PID, K_NONMIN)
     args = [("corner", chk.seed)]
-    if not nonmin_known:   # the class is probed by generation only while it is not a recorded finding
-        args.append(("docs", 9000, chk.seed * 7919 + 9000, chk.pick(150, 1500), mods_json, 0, True))
     nrand = chk.pick(1500, 20000)
     rchunks = max(1, min(W, nrand // 200))
     args += [("random", i, chk.seed * 104729 + i, -(-nrand // rchunks)) for i in range(rchunks)]
     args += [("enber", chk.seed * 31 + 5 + i, chk.pick(60, 600)) for i in range(4)]
-    args += [("docs", i, chk.seed * 7919 + i, per, mods_json, k_mut, False) for i in range(nchunks)]
+    # padded long-form lengths are part of every document unless the class is a recorded (unrepaired) finding
+    args += [("docs", i, chk.seed * 7919 + i, per, mods_json, k_mut, not nonmin_known) for i in range(nchunks)]
     t1 = time.time()
     best = {}
     for kind, r in run_pool(worker, args, W):
